@@ -114,7 +114,7 @@ contract(
 
 contract(
     "liquid2.context:RenderContext.get_output_buffer",
-    props=["C06", "C18", "C01"],
+    props=["C06", "C18", "C01", "C02"],     # C02: whatever buffer the enclosing construct writes to (a NullIO of a suppressed block included), nothing escapes
     params={"self": CTX(), "parent_buffer": Union(NoneT, Rec("LimitedStringIO", _module="liquid2.output", size=Int, limit=Int),
                                                   Rec("StringIO", _module=None), Rec("NullIO", _module="liquid2.output"))},
     pre=["implies(parent_buffer is not None and isinstance(parent_buffer, LimitedStringIO), parent_buffer.size >= 0)"],
